@@ -20,6 +20,8 @@ RULE = ("(operator among + - neg * / // % divmod, six comparisons, val(), abs) x
         "it, inside the documented no-raise domain the call must return. Compositions: random trees of 2-4 fixed-point operations over mixed leaves, every "
         "intermediate compared with the reference evaluated step by step. Non-trivial = mixed operand kinds or a "
         "non-integer / negative operand (single operations), >= 2 completed fixed-point operations (compositions); distinct by (op, types, values, resolution, bitlength).")
+RULE += " Extensions (seeded rounds 10-15): resolutions 14-30 at bitlength 64, Python's rounding protocols on fixed-point values, compositions with abs / squares / duplicated inputs ending in a comparison with 0, values read back under the real nobackend backend."
+
 
 BIN = ["add", "sub", "mul", "truediv", "floordiv", "mod", "divmod", "lt", "le", "gt", "ge", "eq", "ne"]
 UN = ["neg", "abs", "val", "pos", "copy", "deepcopy", "int_of", "round_of", "round0_of", "floor_of", "ceil_of", "trunc_of"]
